@@ -362,7 +362,7 @@ class GInv(GraphBase):
         E("read MapperValued.max_pixel_centre", lambda c: _arr(self._mv(c).max_pixel_centre))
         E("read MapperValued.max_pixel_list_from(2)", lambda c: [int(i) for i in self._mv(c).max_pixel_list_from(total_pixels=2)[0]])
         E("read MapperValued(no pixel mask).mapped_reconstructed_image_from()",
-          lambda c: _arr(aa.MapperValued(mapper=c["objs"][0], values=c["values"]).mapped_reconstructed_image_from()))
+          lambda c: _arr(aa.MapperValued(mapper=c["objs"][0], values=c["values2"]).mapped_reconstructed_image_from()))
 
     def _mv(self, c):
         return self.aa.MapperValued(mapper=c["objs"][0], values=c["values"], mesh_pixel_mask=c["pixmask"])
@@ -388,13 +388,13 @@ class GInv(GraphBase):
         values = 0.5 + (np.arange(n) * 7 % 5) / 3.0
         pixmask = np.zeros(n, dtype=bool)
         pixmask[[1, n - 2]] = True
-        return {"fx": fx, "ds": fx["ds"], "objs": objs, "inv": inv, "settings": st, "values": values, "pixmask": pixmask}
+        return {"fx": fx, "ds": fx["ds"], "objs": objs, "inv": inv, "settings": st, "values": values, "values2": values.copy(), "pixmask": pixmask}
 
     def roots(self, c):
         return {"ds": c["ds"], "objs": c["objs"], "inv": c["inv"]}
 
     def inputs(self, c):
-        return {"MapperValued.values": c["values"], "MapperValued.mesh_pixel_mask": c["pixmask"], "settings": c["settings"],
+        return {"MapperValued.values": c["values"], "MapperValued.values(no pixel mask)": c["values2"], "MapperValued.mesh_pixel_mask": c["pixmask"], "settings": c["settings"],
                 "dataset.data": c["ds"].data, "dataset.noise_map": c["ds"].noise_map, "dataset.psf": c["ds"].psf}
 
 
@@ -522,6 +522,17 @@ def graph_for(key):
     return _G[key]
 
 
+# queries of the valued mapper that all go through MapperValued.values_masked: one call site, one finding class
+_VALUES_MASKED_CALLERS = ("read MapperValued.values_masked", "read MapperValued.mapped_reconstructed_image_from()",
+                          "read MapperValued.max_pixel_centre", "read MapperValued.max_pixel_list_from(2)")
+
+
+def canonical_finding(finding):
+    if finding.startswith("mutates:MapperValued.values<-") and finding.split("<-", 1)[1] in _VALUES_MASKED_CALLERS:
+        return "mutates:MapperValued.values<-MapperValued.values_masked"
+    return finding
+
+
 def explore(tier, seed, report, pool):
     modname = __name__
     total_states = 0
@@ -542,7 +553,7 @@ def explore(tier, seed, report, pool):
         if len(report.samples) < 6:
             report.samples.append({"graph": list(key), "history": [g.events[0][0], g.events[min(3, len(g.events) - 1)][0]], "event": g.events[-1][0]})
         for hist, ev, finding, msg in st["violations"]:
-            f = "%s:%s" % (ID, finding)
+            f = "%s:%s" % (ID, canonical_finding(finding))
             case = {"graph": list(key), "history": hist, "event": ev}
             if f not in report.viol:
                 report.viol[f] = [case, msg, 0]
@@ -556,4 +567,4 @@ def replay_case(case):
     g = graph_for(tuple(case["graph"]))
     viol = histex.replay(g, case["history"], case["event"])
     return {"checks": 1, "nontrivial": True, "outcome": "replay",
-            "violations": [{"finding": "%s:%s" % (ID, v["finding"]), "msg": v["msg"]} for v in viol]}
+            "violations": [{"finding": "%s:%s" % (ID, canonical_finding(v["finding"])), "msg": v["msg"]} for v in viol]}
